@@ -19,7 +19,7 @@ func init() {
 			"(the calls are discovered: data-layer methods with an amount parameter that reach State.Set) has passed a lower-bound test (IsValid, a comparison against a message-independent amount, a Sign/Cmp test, " +
 			"or a helper all of whose success returns lie behind such a test) before the call - in the handler's run function, or on every path to Validate's success return; " +
 			"(minus) Coin.Minus / Amount.Minus return a nil error only on the not-negative edge of their result test, every data-layer debit wrapper writes only behind that nil error, and no caller discards it; " +
-			"(pairing) in each handler every credit is preceded on all paths by the successful debit of the same datum; (floor) amounts split between parties come from integer division without later increment.",
+			"(pairing) in each handler every credit is preceded on all paths by the successful debit of the same datum; (errcheck) no successful return is reachable on the error edge of a value-storing call; (floor) amounts split between parties come from integer division without later increment; (fee) the signed gas price is bounded below by the configured minimum in every charging handler.",
 		NotDecided: "that the ledger sums balance (arithmetic over histories); int64 overflow of ToCoinWithBase; values stored inside composite records (offers, domains) are covered only where the record field flows to a discovered sink in the same handler",
 		Run:        runC02,
 	})
@@ -514,6 +514,7 @@ func runC02(r *Run) {
 	checkMinus(r)
 	checkFloor(r, vs)
 	checkFeePrice(r)
+	checkValueErrors(r, vs)
 	if handlersWith < 15 {
 		fail("C02.signguard: only %d handlers with a message amount reaching the data layer (expected >= 18)", handlersWith)
 	}
@@ -917,5 +918,56 @@ func checkFeePrice(r *Run) {
 	}
 	if n < 30 {
 		fail("C02.fee: only %d charging handlers (expected about 39)", n)
+	}
+}
+
+// ---------------------------------------------------------------------------------------------
+// C02.errcheck: in a handler, the error of every value-storing call decides the outcome: a successful return is not
+// reachable from the call on its error edge (a failed debit or credit must abort - and thereby roll back - the transaction).
+func checkValueErrors(r *Run, vs map[*ssa.Function][]int) {
+	p := r.P
+	seenEntry := map[*ssa.Function]bool{}
+	n := 0
+	for _, h := range p.Handlers() {
+		entry := runFnOf(h.Deliver)
+		if entry == nil || seenEntry[entry] {
+			continue
+		}
+		seenEntry[entry] = true
+		for _, fn := range handlerBody(entry) {
+			if fn != entry {
+				continue // helpers return the error to the run function; checked where it is consumed
+			}
+			allInstrs(fn, func(ins ssa.Instruction) {
+				c, ok := ins.(*ssa.Call)
+				if !ok {
+					return
+				}
+				sc := c.Call.StaticCallee()
+				if _, isVS := vs[sc]; sc == nil || !isVS {
+					return
+				}
+				if resultIndex(sc.Signature, isErrorType) < 0 {
+					return
+				}
+				n++
+				// the error edge of this very call
+				g := &CallGuard{Name: "call succeeded", Callees: []string{calleeName(c)}, ErrOnly: true, ArgOK: func(cc *ssa.Call) bool { return cc == c }}
+				pass := g.Edges(p, fn)
+				bad := len(pass) == 0
+				if !bad {
+					for i2 := range reachFromInstr(c, pass, nil) {
+						if ret, isRet := i2.(*ssa.Return); isRet && returnMayBeSuccess(ret) {
+							bad = true
+						}
+					}
+				}
+				r.Check(!bad, "C02.errcheck", h.Name, "a failing "+fname(sc)+" aborts the transaction", "no successful return reachable on the call's error edge",
+					"the handler can report success although "+fname(sc)+" failed (error dropped or only logged): the paired movement is committed without it", p.ipos(c))
+			})
+		}
+	}
+	if n < 40 {
+		fail("C02.errcheck: only %d value-storing calls with an error result in run functions (expected >= 50)", n)
 	}
 }
